@@ -381,41 +381,8 @@ def run(repo, rep, tier):
                 got_err = env['err'] is not None
                 rep.check('incomplete', 'sshv=%s packet_type=%s: error recorded iff wrong type' % (sv, pt), want_err == got_err, n,
                           'with protocol %s a first packet of type %s %s' % (sv, pt, 'is accepted as the algorithm message' if want_err else 'is rejected although it is the expected message'))
-    # truncated algorithm messages: ReadBuf.read(n) returns what is there, so a message cut short is noticed only because the fixed-width
-    # primitives fail on fewer bytes than they need, and because each parser ends with fixed-width fields after its last variable-length one
-    import struct as _struct
-    for prim, need in (('ReadBuf.read_byte', 1), ('ReadBuf.read_int', 4)):
-        pf = repo.func('readbuf', prim)
-        rep.saw(pf)
-        reads = [n for n in walk_no_nested(pf) if isinstance(n, ast.Call) and unparse(n.func) == 'self.read']
-        if len(reads) != 1:
-            raise AnalysisError('%s: expected exactly one self.read(k)' % prim)
-        rd = reads[0]
-        par = rd._parent
-        strict = False
-        if isinstance(par, ast.Call) and unparse(par.func) == 'struct.unpack' and par.args and isinstance(par.args[0], ast.Constant) and len(par.args) == 2 and par.args[1] is rd:
-            try:
-                strict = _struct.calcsize(par.args[0].value) == need and unparse(rd.args[0]) == str(need)
-            except _struct.error:
-                strict = False
-        if not strict:
-            # an explicit length test that raises is as good
-            for n in walk_no_nested(pf):
-                if isinstance(n, ast.If) and 'len(' in unparse(n.test) and any(isinstance(x, ast.Raise) for x in ast.walk(n)):
-                    strict = True
-        rep.check('incomplete', '%s fails on fewer than %d byte(s) (struct.unpack of exactly that size, or an explicit length test)' % (prim, need), strict, rd,
-                  '%s accepts a short read (%s): a KEXINIT / public-key message cut off inside or before a fixed-width field parses as if it were complete (missing bytes count as zero), so an audit that never obtained the full algorithm lists prints a report and exits 0/2/3' % (prim, unparse(par)[:70]),
-                  stmt='%s short-read strictness' % prim)
-    FIXED = ('read_byte', 'read_bool', 'read_int')
-    for pq_mod, pq in (('ssh2_kex', 'SSH2_Kex.parse'), ('ssh1_publickeymessage', 'SSH1_PublicKeyMessage.parse')):
-        pf = repo.func(pq_mod, pq)
-        rep.saw(pf)
-        rcalls = sorted([n for n in walk_no_nested(pf) if isinstance(n, ast.Call) and isinstance(n.func, ast.Attribute) and n.func.attr.startswith('read') and isinstance(n.func.value, ast.Name)], key=lambda n: (n.lineno, n.col_offset))
-        rep.floor('incomplete', 'buffer reads in %s' % pq, len(rcalls), 5)
-        last = rcalls[-1]
-        in_branch = any(k in ('if', 'for', 'while') for t, pol, k in _pc(last))
-        rep.check('incomplete', '%s ends with a fixed-width field read unconditionally after its last variable-length field' % pq, last.func.attr in FIXED and not in_branch, last,
-                  '%s ends with %s: a message truncated inside its last variable-length field is accepted as complete' % (pq, unparse(last)), stmt='%s trailing fixed-width read' % pq)
+    from props import _truncation
+    _truncation.check_truncation(repo, rep, 'incomplete')
     # SSH-1 parse: is it protected?  (crash clause belongs to C09; recorded as a note here)
     # ---- rule 5: policy mapping ----------------------------------------------------------------------
     found = 0
